@@ -368,7 +368,9 @@ def nonuniform_accuracy(ctx, be, n_curves):
         roots = exact_roots(cv, normal, offset, T)
         if not roots:
             continue
-        n = int(rng.choice([200, 400]))
+        # fine grids as well: an error that is only first order in the spacing stays inside the (second-order) linear bound on a
+        # coarse grid and leaves it on a fine one
+        n = int(rng.choice([200, 400, 1600, 3200]))
         u = np.linspace(0, 1, n + 1)
         if it % 2 == 0:
             jitter = rng.uniform(-0.35, 0.35, n + 1) / n
